@@ -124,11 +124,19 @@ pub fn ev(e: &Event, s: &Span) -> String {
 
 const MAX_ITEMS: usize = 4_000_000;
 
+/// C01 promises work linear in the input: a run that delivers more items than this has left the bound
+/// (and would otherwise fill the memory of the machine)
+fn item_cap(text_chars: usize) -> usize {
+    (64 * text_chars + 4096).min(MAX_ITEMS)
+}
+thread_local! { static CAP: std::cell::Cell<usize> = const { std::cell::Cell::new(MAX_ITEMS) }; }
+fn cap() -> usize { CAP.with(|c| c.get()) }
+
 fn run_tok<I: Input>(mut sc: Scanner<'_, I>) -> String {
     let mut out = vec![];
     while let Some(t) = sc.next() {
         out.push(tok(&t));
-        if out.len() > MAX_ITEMS {
+        if out.len() > cap() {
             return format!("{} ; RUNAWAY", out.len());
         }
     }
@@ -146,7 +154,7 @@ fn run_evt<I: Input>(p: Parser<I>) -> String {
         match r {
             Ok((e, s)) => {
                 out.push(ev(&e, &s));
-                if out.len() > MAX_ITEMS {
+                if out.len() > cap() {
                     return format!("{} ; RUNAWAY", out.len());
                 }
             }
@@ -202,6 +210,10 @@ impl<'a> SpannedEventReceiver<'a> for Recv {
             self.saw_end = true;
         }
         self.out.push(ev(&e, &s));
+        if self.out.len() > cap() {
+            // unwinds out of `Parser::load`; reported as `PANIC RUNAWAY …` by the request loop
+            panic!("RUNAWAY push interface delivered more than {} events", cap());
+        }
     }
 }
 
@@ -274,6 +286,10 @@ where
 /// parse_representation_recursive on every document).
 fn run_lod(nk: &str, mode: &str, text: &str) -> String {
     use tree::Dump;
+    // the loaders cannot be stopped from outside: look first whether the event stream ends
+    if Parser::new_from_str(text).take_while(|r| r.is_ok()).take(cap() + 1).count() > cap() {
+        return "RUNAWAY".into();
+    }
     fn fin<N: Dump>(r: Result<Vec<N>, ScanError>) -> String {
         match r {
             Ok(docs) => {
@@ -484,11 +500,11 @@ fn run_cnt(kind: &str, text: &str) -> String {
     let n_ev = match kind {
         "str" => {
             let p = Parser::new(CountingInput::new(StrInput::new(text), counter.clone()));
-            p.take_while(|r| r.is_ok()).count()
+            p.take_while(|r| r.is_ok()).take(cap() + 1).count()
         }
         _ => {
             let p = Parser::new(CountingInput::new(BufferedInput::new(text.chars()), counter.clone()));
-            p.take_while(|r| r.is_ok()).count()
+            p.take_while(|r| r.is_ok()).take(cap() + 1).count()
         }
     };
     format!("{} {} {}", counter.get(), text.chars().count(), n_ev)
@@ -497,6 +513,9 @@ fn run_cnt(kind: &str, text: &str) -> String {
 fn handle(line: &str) -> String {
     let f: Vec<&str> = line.trim_end_matches(['\n', '\r']).split(' ').collect();
     let arg = |i: usize| -> &str { f.get(i).copied().unwrap_or("") };
+    // texts travel as 6 hex digits per character: the longest argument bounds the input length
+    let longest = f.iter().map(|x| x.len()).max().unwrap_or(0);
+    CAP.with(|c| c.set(item_cap(longest / 6 + 1)));
     match arg(0) {
         "cls" => run_cls(arg(1).parse().unwrap_or(0)),
         "tok" => {
@@ -537,6 +556,7 @@ fn handle(line: &str) -> String {
             out
         }
         "get" => tree::run_get(&f[1.min(f.len())..]),
+        "heq" => tree::run_heq(&f[1.min(f.len())..]),
         "fdisp" => {
             // Display text of the float with the given bits (the emitter's external dependency)
             match u64::from_str_radix(arg(1), 16) {
